@@ -408,7 +408,18 @@ def byte_term(r):
     """Int term of a rope of length 1"""
     r = Rope(r.segs)
     if len(r.segs) != 1:
-        raise Unsupported("byte_term of %r" % (r,))
+        # drop segments that the path condition proves empty
+        keep = []
+        for sg in r.segs:
+            try:
+                empty, _ = ctx().must_hold(sg.length() == 0)
+            except Unsupported:
+                empty = False
+            if not empty:
+                keep.append(sg)
+        if len(keep) != 1:
+            raise Unsupported("byte_term of %r" % (r,))
+        r = Rope(keep)
     s = r.segs[0]
     if isinstance(s, Lit):
         return z3.IntVal(s.b[0])
@@ -422,10 +433,26 @@ def byte_term(r):
     return e
 
 
+def fix_small_lengths(r, total):
+    """r is known to be `total` (small) bytes long: give every blob slice of symbolic length a constant length
+    (forking over the feasible values), so that it can be taken apart byte by byte"""
+    segs = []
+    c = ctx()
+    for sg in r.segs:
+        if isinstance(sg, Slice) and _const(sg.len) is None:
+            k = c.decide([sg.len == j for j in range(total + 1)], "small-len")
+            if k == 0:
+                continue
+            sg = Slice(sg.base, sg.off, k)
+        segs.append(sg)
+    return Rope(segs)
+
+
 def int_of_rope(r, width):
     """big-endian unsigned integer term of a rope of exactly `width` bytes"""
     if len(r.segs) == 1 and isinstance(r.segs[0], Field) and r.segs[0].width == width:
         return r.segs[0].value
+    r = fix_small_lengths(r, width)
     total = z3.IntVal(0)
     rest = r
     for k in range(width):
